@@ -191,6 +191,35 @@ def _(rng, t, extra):
 	return t.copy()
 
 
+@deriv("copy.copy(table)", "table")
+def _(rng, t, extra):
+	import copy
+	return copy.copy(t)
+
+
+@deriv("copy.deepcopy(table)", "table")
+def _(rng, t, extra):
+	import copy
+	return copy.deepcopy(t)
+
+
+@deriv("table == itself", "table")
+def _(rng, t, extra):
+	return t == t
+
+
+@deriv("copy.copy(vector)", "vector")
+def _(rng, v, extra):
+	import copy
+	return copy.copy(v)
+
+
+@deriv("copy.deepcopy(vector)", "vector")
+def _(rng, v, extra):
+	import copy
+	return copy.deepcopy(v)
+
+
 @deriv("window", "table")
 def _(rng, t, extra):
 	return t.window(over="c", sum_over="a", apply={"n": ("b", len)})
